@@ -7,7 +7,7 @@ from harness import core
 from harness.core import Outcome
 
 ID = "C12"
-LEAN_TARGETS = ["BeyondVerif.Props.C12", "BeyondVerif.Witness.C12"]
+LEAN_TARGETS = ["BeyondVerif.Props.C12", "BeyondVerif.Props.C12Lines", "BeyondVerif.Witness.C12"]
 THEOREMS = [
     "BeyondVerif.C12.checksum_detects_digit_error",
     "BeyondVerif.C12.valid_iff",
@@ -25,10 +25,15 @@ THEOREMS = [
     "BeyondVerif.C12.from_string_yields_valid_entries",
     "BeyondVerif.C12.from_string_framed_exact",
     "BeyondVerif.C12.reference_tles_roundtrip",
+    "BeyondVerif.C12.from_string_windows",
+    "BeyondVerif.C12.from_string_no_memory",
+    "BeyondVerif.C12.rejected_entry_leaves_no_trace",
+    "BeyondVerif.C12.valid_entry_yielded_anywhere",
     "BeyondVerif.C12W.leading_blank_now_harmless",
     "BeyondVerif.C12W.from_string_keeps_valid_entry",
     "BeyondVerif.C12W.ecc_one_refused",
     "BeyondVerif.C12W.missing_line_is_parse_error",
+    "BeyondVerif.C12W.blank_drag_field_ends_generator",
 ]
 LEVEL_TEXT = ("Lean theorems over a List Char / Int model of beyond/io/tle.py whose column slices and writer layout are regenerated from the Python AST on every "
               "run (the hand-modelled functions are compared statement by statement with the source the model was written from). For EVERY record inside the "
@@ -637,6 +642,172 @@ def o_from_string_directed(out, rng):
                 o_from_string(out, rng, recs, ["valid", kind, "valid"], fillers=False, tag="from-string-directed")
 
 
+# ---------------------------------------------------------------- from_string on arbitrary lists of lines
+
+def line_kind(l):
+    if not l.strip() or l.startswith("#"):
+        return "skip"
+    if l.startswith("1 "):
+        return "one"
+    if l.startswith("2 "):
+        return "two"
+    return "other"
+
+
+def spec_attempts(lines):
+    """the texts a reader without memory tries, one per non-skipped line '2 ...': that line preceded by the line '1 ...' in front of it and
+    by the name line in front of that (Props/C12Lines.lean `attempts` / `window`; written from the property, not from the code)"""
+    out = []
+    p2 = p1 = None
+    for x in lines:
+        k = line_kind(x)
+        if k == "skip":
+            continue
+        if k == "two":
+            if p1 is None:
+                w = []
+            elif p1.startswith("1 "):
+                w = [p1] if (p2 is None or p2.startswith("1 ")) else [p2, p1]
+            else:
+                w = [p1]
+            out.append(w + [x])
+            p2 = p1 = None
+        else:
+            p2, p1 = p1, x
+    return out
+
+
+def blank_field(l1, a, b):
+    v = l1[:a] + " " * (b - a) + l1[b:68]
+    return v + str(spec_checksum(v))
+
+
+LINE_TOKENS = ["valid2", "valid3", "valid3-0", "digit", "length", "blank", "comment", "orphan1", "orphan2", "junk", "lead-blank-1", "swapped", "bad-then-1",
+               "blank-inside", "blank-drag"]
+
+
+def token_lines(rng, t):
+    """the lines of one token of an arbitrary text"""
+    r = gen_rec(rng, named=t in ("valid3", "valid3-0"))
+    l1, l2 = spec_lines(r)
+    if t == "valid2":
+        return [l1, l2]
+    if t == "valid3":
+        return [r["name"] + rng.choice(["", "  "]), l1, l2]
+    if t == "valid3-0":
+        return ["0 " + r["name"], l1, l2]
+    if t in ("digit", "length"):
+        return corrupt_entry(rng, l1, l2, t)
+    if t == "blank":
+        return [rng.choice(["", "   ", "\t"])]
+    if t == "comment":
+        return [rng.choice(["# comment", "#", "#1 25544U"])]
+    if t == "orphan1":
+        return [l1]
+    if t == "orphan2":
+        return [l2]
+    if t == "junk":
+        return [rng.choice([gen_name(rng), "1", "2", "1X", "3 " + l2[2:], " # indented", "0 NAME", "25544"])]
+    if t == "lead-blank-1":
+        return [" " + l1, l2]
+    if t == "swapped":
+        return [l2, l1]
+    if t == "bad-then-1":
+        return [l1, "1" + l2[1:]]
+    if t == "blank-inside":
+        return [l1, rng.choice(["", "# c"]), l2]
+    if t == "blank-drag":
+        a, b = rng.choice([(44, 52), (53, 61)])
+        return [blank_field(l1, a, b), l2]
+    raise ValueError(t)
+
+
+def gen_line_tokens(rng, n=None, allow_blank_drag=True):
+    """an arbitrary interleaving: -> (list of lines, list of token names)"""
+    lines, toks = [], []
+    for _ in range(n or rng.randint(1, 7)):
+        t = rng.choice(LINE_TOKENS)
+        if t == "blank-drag" and (not allow_blank_drag or rng.random() < 0.7):
+            t = "valid2"
+        lines += token_lines(rng, t)
+        toks.append(t)
+    return lines, toks
+
+
+def real_from_string(lines, error="ignore"):
+    """-> (list of (name, text), 'done' | exception type name)"""
+    from beyond.io.tle import Tle
+    got = []
+    try:
+        for t in Tle.from_string("\n".join(lines), error=error):
+            got.append((t.name, t.text))
+    except Exception as e:  # noqa
+        return got, type(e).__name__
+    return got, "done"
+
+
+def judge_from_string_lines(out, lines, toks, tag):
+    """clause 4 on an arbitrary list of lines: exactly the accepted attempts, with their names, in order; never an exception"""
+    atts = spec_attempts(lines)
+    expected = []
+    for a in atts:
+        k, t = try_parse("\n".join(a))
+        if k == "ok":
+            expected.append((t.name, t.text))
+    got, end = real_from_string(lines)
+    inp = {"lines": lines, "tokens": toks}
+    if end != "done":
+        # which attempt raises on its own?
+        culprit = next((a for a in atts if try_parse("\n".join(a))[0].startswith("other")), None)
+        fam = "from-string-raises-" + end
+        if culprit is not None and end == "IndexError":
+            l1 = culprit[-2] if len(culprit) >= 2 else ""
+            if len(l1.strip()) == 69 and (not l1.strip()[44:52].strip() or not l1.strip()[53:61].strip()):
+                fam = "from-string-raises-IndexError-blank-drag-field"
+        out.fail(fam, "Tle.from_string(error='ignore') raises instead of skipping the entry: the valid entries after it are lost", inp,
+                 observed=end, expected=[e[1] for e in expected])
+        return
+    if [g[1] for g in got] != [e[1] for e in expected]:
+        lost = [e for e in expected if e[1] not in [g[1] for g in got]]
+        fam = "from-string-lines-entry-lost" if lost else "from-string-lines-extra-entry"
+        out.fail(fam + "-" + tag, "Tle.from_string does not yield exactly the accepted entries of the text", inp, observed=[g[1] for g in got], expected=[e[1] for e in expected])
+        return
+    for g, e in zip(got, expected):
+        if g[0] != e[0]:
+            out.fail("from-string-lines-name-" + tag, "an entry is yielded with a name that is not the line in front of its line 1", inp, observed=g[0], expected=e[0])
+            return
+
+
+def o_from_string_lines(out, rng):
+    lines, toks = gen_line_tokens(rng, allow_blank_drag=False)
+    out.count(key="\n".join(lines), kind="from-string-lines", tokens=len(toks))
+    for t in toks:
+        out.tally("fs-token=" + t)
+    judge_from_string_lines(out, lines, toks, "random")
+
+
+def o_from_string_pairs(out, rng):
+    """every ordered pair of token kinds followed by a valid entry, so that what each kind leaves behind meets each kind (the cache after a
+    rejected entry, an orphan line, a name line...)"""
+    kinds = [k for k in LINE_TOKENS if k != "blank-drag"]
+    for a in kinds:
+        for b in kinds:
+            lines = token_lines(rng, a) + token_lines(rng, b) + token_lines(rng, "valid2")
+            out.count(key="\n".join(lines), kind="from-string-pairs")
+            judge_from_string_lines(out, lines, [a, b, "valid2"], "after-" + a + "-" + b)
+
+
+def o_from_string_blank_drag(out, rng):
+    """an entry whose drag field is blank (checksum right) between valid entries: Tle(...) must refuse it with a ValueError and from_string skip it"""
+    for a, b in ((44, 52), (53, 61)):
+        r0, r1, r2 = gen_rec(rng, named=False), gen_rec(rng, named=False), gen_rec(rng)
+        l1, l2 = spec_lines(r1)
+        lines = list(spec_lines(r0)) + [blank_field(l1, a, b), l2] + spec_text(r2).split("\n")
+        out.count(key="\n".join(lines), kind="from-string-blank-drag")
+        judge_from_string_lines(out, lines, ["valid2", "blank-drag", "valid"], "blank-drag")
+
+
+
 def o_unfloat(out, rng):
     from beyond.io.tle import _float, _unfloat
     u = gen_unfl(rng)
@@ -669,6 +840,11 @@ def oracle(ctx, widened):
         o_from_string(out, rng, [gen_rec(rng) for _ in range(rng.randint(1, 5))])
     for _ in range(10 if big else 1):
         o_from_string_directed(out, rng)
+    for _ in range(4000 if big else 400):
+        o_from_string_lines(out, rng)
+    for _ in range(5 if big else 1):
+        o_from_string_pairs(out, rng)
+    o_from_string_blank_drag(out, rng)
     out.sample({"checked": "parse->write identity, write->parse elements, 69 columns + checksums, every digit/length/line-number corruption rejected, from_string yields exactly the valid entries"})
     return out
 
@@ -704,6 +880,10 @@ def replay(f):
         k, t = try_parse(i["text"])
         if k == "ok" or k.startswith("other"):
             out.fail(fam, f["what"], i, observed=k)
+    elif "lines" in i and "tokens" in i:
+        judge_from_string_lines(out, i["lines"], i["tokens"], fam.rsplit("-", 1)[-1] if False else "replay")
+        for x in out.failures:
+            x["family"] = fam
     elif "kinds" in i:
         from beyond.io.tle import Tle
         try:
@@ -1370,6 +1550,16 @@ def k_from_string(out, rng, n):
             else:
                 lines += [l2, l1]
         texts.append(lines)
+    # arbitrary interleavings (valid / rejected entries, name lines, blanks, comments, orphan lines, blank drag fields)
+    for _ in range(n):
+        ls, toks = gen_line_tokens(rng)
+        for t in toks:
+            out.tally("fs-token=" + t)
+        texts.append([l for l in ls if ascii_ok(l) or l == "\t"])
+    kinds = [k for k in LINE_TOKENS]
+    for a in kinds:
+        for b in kinds:
+            texts.append(token_lines(rng, a) + token_lines(rng, b) + token_lines(rng, rng.choice(["valid2", "valid3"])))
     reqs = ["tle.fs " + " ".join(hx(l) for l in ls) for ls in texts]
     for ls, m in zip(texts, core.Driver().run(reqs)):
         got = []
